@@ -124,6 +124,23 @@ def run(ctx):
                        "data": {"data": [float(v) for row in data for v in row], "shape": [T, n], "layout": "C"}})
         ll_exact.append((thetas, mus, data))
         ctx.count("ll_tables_with_stuck_stretches")
+    # windows with a missing sample (NaN) or an overflowing value (inf): every mode must propagate them the same way
+    ll_special = set()
+    for i in range(3 if ctx.quick() else 12):
+        n = ctx.rng.randint(1, 3)
+        K = ctx.rng.randint(1, 3)
+        T = ctx.rng.randint(8, 60)
+        thetas = [c05.spd_dyadic(ctx.rng, n) for _ in range(K)]
+        mus = [[Fraction(ctx.rng.randint(-32, 32), 8) for _ in range(n)] for _ in range(K)]
+        rows = [[float(Fraction(ctx.rng.randint(-128, 128), 8)) for _ in range(n)] for _ in range(T)]
+        for _ in range(ctx.rng.randint(1, 4)):
+            rows[ctx.rng.randrange(T)][ctx.rng.randrange(n)] = [float("nan"), float("inf"), float("-inf")][i % 3]
+        ll_special.add(len(lljobs))
+        lljobs.append({"W": 1, "thetas": [[[float(v) for v in r] for r in t] for t in thetas],
+                       "mus": [[float(v) for v in m] for m in mus],
+                       "data": {"data": [v for row in rows for v in row], "shape": [T, n], "layout": "C"}})
+        ll_exact.append((thetas, mus, rows))
+        ctx.count("ll_tables_with_nan_or_inf")
     runs = [] if ctx.replay is not None else [tu.gen_config(ctx.rng) for _ in range(3 if ctx.quick() else 12)]
     job = {"kernel": kjobs, "ll": lljobs, "runs": runs}
 
@@ -178,6 +195,23 @@ def run(ctx):
             if "error" in got or "error" in ref:
                 ctx.violation("impl-violation", f"likelihood table raised in mode {name}: {got.get('error') or ref.get('error')}",
                               {"ll": i, "mode": name}, {"site": "ll-mode-error"})
+                continue
+            if i in ll_special:
+                # no rational value exists for these windows: the modes are compared with each other, cell by cell —
+                # the same cells are NaN / +inf / -inf, the finite ones agree to rounding
+                for p_, row in enumerate(got["table"]):
+                    for k, hx in enumerate(row):
+                        v, w = float.fromhex(hx), float.fromhex(ref["table"][p_][k])
+                        same = (math.isnan(v) and math.isnan(w)) or v == w or \
+                            (math.isfinite(v) and math.isfinite(w) and abs(v - w) <= 1e-9 * max(1.0, abs(w)))
+                        if not same:
+                            ctx.violation("impl-violation", f"mode {name}: table[{p_},{k}] = {v} but the interpreted kernel gives {w} "
+                                          "for a window holding a non-finite sample", {"ll": i, "mode": name}, {"site": "ll-mode"})
+                            break
+                    else:
+                        continue
+                    break
+                ctx.case(("ll-special", i, name), nontrivial=True)
                 continue
             for p_, row in enumerate(got["table"]):
                 for k, hx in enumerate(row):
